@@ -189,6 +189,9 @@ def run_faults(ctx, desc):
                 ctx.violation("block-upload-crc-wrong-data-returned:" + c["kind"],
                               f"{c['kind']} at {c.get('k')}: returned {len(got)} bytes differing from the server's {len(value)} bytes "
                               f"although CRC was negotiated", c, rig.wire(40))
+            elif exc is None and c["kind"].startswith("wrong-crc"):
+                ctx.violation("block-upload-wrong-checksum-accepted:" + c["kind"],
+                              f"the end frame carried a wrong checksum ({c['kind']}) and the call returned normally", c, rig.wire(12))
             elif exc is not None and not isinstance(exc, SdoError):
                 ctx.violation(f"block-upload-fault-raised-non-sdo-error:{type(exc).__name__}:{c['kind']}",
                               f"{c['kind']} at {c.get('k')}: raised {exc!r} (not an SdoError)", c, rig.wire(40))
